@@ -10,7 +10,7 @@ live schema: closure, removal, preservation, source-untouched.
 import hashlib
 
 from py_gql import build_schema, graphql_blocking
-from py_gql.exc import GraphQLError
+from py_gql.exc import GraphQLError, SDLError
 from py_gql.execution import default_resolver as _default_resolver
 from py_gql.schema import (
     InputObjectType,
@@ -852,8 +852,27 @@ def run_machine(draws, state, tier):
                 seq[-1] = (opname, li, kind)
                 new = extend_schema(src.schema, doc)
         except GraphQLError as err:
-            raised = err  # a refused operation (e.g. result would be invalid)
+            # A refused operation.  The documented refusals are "the result
+            # would not be a valid schema" (transforms and extensions validate
+            # what they return) and the SDL-level ones of extension documents
+            # and schema directives (already applied, unknown).  clone() has
+            # none, and no operation may refuse a live schema because of what
+            # an EARLIER derivation left in it (a transform result is a schema
+            # like any other: "all valid schemas").
+            raised = err
             res.count("op_refused:" + opname)
+            res.count("refusal:%s:%s" % (opname, type(err).__name__))
+            legit = isinstance(err, SchemaValidationError) or (
+                op in (4, 6) and isinstance(err, SDLError))
+            if op == 0 or not legit:
+                fail("source_modified", (opname, "refused",
+                                         type(err).__name__),
+                     "%s of live[%d] (%s) was refused with %r although the "
+                     "schema is valid%s" % (
+                         opname, li, src.origin, err,
+                         " (it may be invalid: schema directives applied)"
+                         if src.maybe_invalid else ""))
+                break
         except Exception as err:  # noqa: B902
             fail("source_modified", (opname, "crashed"),
                  "%s on live[%d] (%s) raised %r" % (opname, li, src.origin,
@@ -1025,13 +1044,9 @@ def run_machine(draws, state, tier):
                     continue
                 graphql_blocking(l.schema, "{ __typename }")
                 l.schema.to_string()
-                if not l.renamed and not l.hidden:
-                    # (a result of renaming or hiding keeps resolver-registry
-                    # entries under names that no longer exist and cannot be
-                    # cloned again; that is outside the statement, which
-                    # speaks of the source of a transform)
-                    transform_schema(l.schema, CamelCaseSchemaTransform())
-                    transform_schema(l.schema, CamelCaseSchemaTransform())
+                l.schema.clone()
+                transform_schema(l.schema, CamelCaseSchemaTransform())
+                transform_schema(l.schema, CamelCaseSchemaTransform())
             except Exception as err:  # noqa: B902
                 fail("source_modified", ("final-use", "unusable"),
                      "live[%d] (%s): %r" % (i, l.origin, err))
